@@ -87,7 +87,7 @@ def _chatter(dec, kind, src, dst, k):
         CHATTER["claims"] += 1
 
 
-def framewise(kind, prio, pgn, src, dst, frames, tpad=0, long_lived=None, chatter=False):
+def framewise(kind, prio, pgn, src, dst, frames, tpad=0, long_lived=None, chatter=False, late_repeat=False):
     ident = wire.can_id(prio, pgn, src, dst)
     pdu1 = ((pgn >> 8) & 0xFF) < 240
     d_eff = dst if pdu1 else 255
@@ -97,17 +97,33 @@ def framewise(kind, prio, pgn, src, dst, frames, tpad=0, long_lived=None, chatte
         # an identical transmission of this very message (same stream, same sequence counter)
         dec = NMEA2000Decoder() if long_lived is None else LONG_LIVED.setdefault(long_lived, NMEA2000Decoder())
         r = None
+        def give(f):
+            if kind == "ebyte":
+                return dec.decode_tcp(wire.ebyte_frame(ident, f, pad=tpad))
+            if kind == "usb":
+                return dec.decode_usb(wire.usb_frame(ident, f, pad=tpad))
+            if kind == "yd":
+                return dec.decode_yacht_devices_string(wire.yd_line(ident, f).strip())
+            return dec.decode_basic_string(wire.plain_line(prio, pgn, src, d_eff, f) + (",ff,ee"[:3 * (8 - len(f))] if tpad else ""))
+        prev = []
+        if late_repeat and len(frames) > 1:
+            # the message before this one on the same stream (same content, the previous sequence counter) went through in full;
+            # the gateway repeats its LAST frame late, after this message's first frame
+            prev = [bytes([((((f[0] >> 5) + 7) % 8) << 5) | (f[0] & 0x1F)]) + f[1:] for f in frames]
+            for f in prev:
+                try:
+                    give(f)
+                except Exception:  # noqa: BLE001
+                    pass
         for k, f in enumerate(frames):
             if chatter:
                 _chatter(dec, kind, src, dst, k)
-            if kind == "ebyte":
-                r = dec.decode_tcp(wire.ebyte_frame(ident, f, pad=tpad))
-            elif kind == "usb":
-                r = dec.decode_usb(wire.usb_frame(ident, f, pad=tpad))
-            elif kind == "yd":
-                r = dec.decode_yacht_devices_string(wire.yd_line(ident, f).strip())
-            else:
-                r = dec.decode_basic_string(wire.plain_line(prio, pgn, src, d_eff, f) + (",ff,ee"[:3 * (8 - len(f))] if tpad else ""))
+            if prev and k == 1:
+                try:
+                    give(prev[-1])
+                except Exception:  # noqa: BLE001
+                    pass
+            r = give(f)
             if r is not None and k < len(frames) - 1:
                 raise AssertionError("message before last frame")
         return r
@@ -253,6 +269,9 @@ def run_shard(spec, acc):
                     "plain_frames": framewise("plain", prio, d.pgn, src, dst, frames),
                     # the bus is not silent while a message is in transit: other devices claim and re-claim addresses
                     "ebyte_frames_between_claims": framewise("ebyte", prio, d.pgn, src, dst, frames, chatter=True),
+                    # a late repeat of the previous message's last frame arrives after this message's first frame
+                    "usb_frames_with_late_repeat": framewise("usb", prio, d.pgn, src, dst, frames, late_repeat=True),
+                    "plain_frames_with_late_repeat": framewise("plain", prio, d.pgn, src, dst, frames, late_repeat=True),
                     # transport-level padding after the declared data length (length nibble / byte / field governs)
                     "ebyte_frames_tpad": framewise("ebyte", prio, d.pgn, src, dst, frames, 0xFF),
                     "usb_frames_tpad": framewise("usb", prio, d.pgn, src, dst, frames, 0xFF),
